@@ -7,6 +7,7 @@ import (
 	"fmt"
 	"strings"
 	"sync"
+	"time"
 
 	ipfslog "berty.tech/go-ipfs-log"
 	"berty.tech/go-ipfs-log/iface"
@@ -21,6 +22,11 @@ import (
 )
 
 var batchSize = 1
+
+// fetchTimeout bounds the fetch of a single entry: a block that nobody
+// provides must not keep a fetch slot, and with it the entries fetched
+// meanwhile, for as long as the store lives
+var fetchTimeout = time.Minute
 
 type queuedState int
 
@@ -309,6 +315,9 @@ func (r *replicator) processHash(ctx context.Context, item processItem) ([]cid.C
 	}()
 
 	verifhook.At("repl.fetch", r, r.store, hash, ctx)
+	ctx, cancel := context.WithTimeout(ctx, fetchTimeout)
+	defer cancel()
+
 	l, err := ipfslog.NewFromEntryHash(ctx, r.store.IPFS(), r.store.Identity(), hash, &ipfslog.LogOptions{
 		ID:               r.store.OpLog().GetID(),
 		AccessController: r.store.AccessController(),
